@@ -246,7 +246,21 @@ func lookup(r *rux.Router, method, path string) string {
 func propTotal(t *rapid.T) {
 	ev.Case()
 	opts, optText := genOptions(t)
-	r := rux.New(opts...)
+	var r *rux.Router
+	switch rapid.IntRange(0, 3).Draw(t, "optionStyle") {
+	case 0: // options given to an already built router (allowed as long as no route exists)
+		r = rux.New()
+		r.WithOptions(opts...)
+		optText = "WithOptions:" + optText
+	case 1: // one by one
+		r = rux.New()
+		for _, o := range opts {
+			r.WithOptions(o)
+		}
+		optText = "WithOptions(1 by 1):" + optText
+	default:
+		r = rux.New(opts...)
+	}
 	nreg := rapid.IntRange(0, 4).Draw(t, "nreg")
 	var regs []regAttempt
 	accepted := 0
